@@ -23,6 +23,7 @@ class HistGen:
         self.var_defined = set()
         self.keep_defined = False
         self.kept = 0
+        self.ops = set()
         self.structs = False
 
     def fname(self):
@@ -41,6 +42,9 @@ class HistGen:
         if fs and r.random() < 0.6:
             parts.append("(%s %d)" % (r.choice(fs), r.randint(0, 3)))
         e = "(+ %s)" % " ".join(parts)
+        if self.ops and r.random() < 0.4:
+            # call through a global that is bound to a *native* procedure (and may be set! later)
+            e = "(%s %s %d)" % (r.choice(sorted(self.ops)), e, r.randint(1, 3))
         k = r.random()
         if fs and k < 0.15:
             return "(%s %s)" % (r.choice(fs), e)          # tail call of another global
@@ -56,6 +60,13 @@ class HistGen:
     def unit(self):
         r = self.r
         k = r.random()
+        if k < 0.06:
+            n = "op%d" % r.randint(0, 1)
+            nat = r.choice(["+", "*", "-", "max", "min"])
+            if n in self.ops and r.random() < 0.6:
+                return "set!-native", "(set! %s %s)" % (n, nat)
+            self.ops.add(n)
+            return "define-native", "(define %s %s)" % (n, nat)
         if k < 0.30 or not self.fn_defined:
             n = self.fname()
             u = "(define (%s x) %s)" % (n, self.body(n))
@@ -198,7 +209,8 @@ def main(tier):
             exp = ref[k]
             why = why or c01.diff_kind(exp, got, us[k])
             # minimise: the shortest prefix-preserving sub-history that still diverges at its last unit
-            recycled_by_now = (us[min(k, len(us) - 1)].get("rr", 0) if us else 0) > 0
+            # (the recycler already runs a few times while the engine boots: compare with the first unit)
+            recycled_by_now = (us[min(k, len(us) - 1)].get("rr", 0) if us else 0) > (us[0].get("rr", 0) if us else 0)
             if recycled_by_now:
                 small = units[max(0, k - 6):k + 1]     # needs the long history by nature
             else:
